@@ -183,6 +183,9 @@ class Interp:
             for node in tree.body:
                 if isinstance(node, ast.ClassDef) and node.name == last:
                     return ClassRef(dotted)
+            tbl = _imports_of(head)
+            if last in tbl and tbl[last] != dotted:
+                return self.dotted_value(tbl[last])  # a name the module imported
             return FuncRef(dotted)
         return ModuleRef(dotted)
 
@@ -1312,6 +1315,8 @@ class Interp:
                     break
         if isinstance(c, ClassRef):
             d = c.dotted
+            if f"isinstance:{d}" in registry.EXTERNALS:
+                return registry.EXTERNALS[f"isinstance:{d}"](self, st, obj)
             if d in core.ENUMS_BY_DOTTED:
                 return isinstance(obj, EnumVal) and obj.cls == core.ENUMS_BY_DOTTED[d]
             if d in core.RECORDS_BY_DOTTED:
